@@ -281,6 +281,7 @@ func init() {
 					e.distinct[fmt.Sprintf("backlog/%d/%d/%t", n1, n2, volatile)] = true
 					cfg := baseConfig()
 					cfg.PauseTimeout = 0
+					cfg.AtLeastOnceMax, cfg.ExactlyOnceMax = maxN+1, maxN+1 // the backlog fits: a refusal would be ErrMax, not this property
 					conn := newLoopConn()
 					dials := 0
 					cfg.Dialer = func(ctx context.Context) (net.Conn, error) {
